@@ -445,6 +445,13 @@ def gen_cases(rng, tier):
     for a in rows:
         ops = [L('op', xb('Tj'), L('n', xb(bytes([a, b]))), L('s', xb(bytes([a, b])))) for b in range(256)]
         cases.append((L('enc', L('ops', *ops), 'wf'), {'kind': 'enc-pair-sweep', 'nontrivial': True}))
+    # fixed findings stay fixed: every operator that merely begins with a keyword / with BI, without and with operands
+    # (C14-keyword-operator), and the keywords themselves as operands next to them
+    kw = [L('op', xb(o)) for o in KW_PREFIXED] + [L('op', xb(o), 'null', L('b', '1'), L('b', '0')) for o in KW_PREFIXED] + \
+         [L('op', xb('BI'), L('i', '1')), L('op', xb('Q'))]
+    cases.append((L('enc', L('ops', *kw), 'wf'), {'kind': 'enc-keyword-prefix', 'nontrivial': True}))
+    for o in KW_PREFIXED:
+        cases.append((L('enc', L('ops', L('op', xb(o)), L('op', xb(o), 'null')), 'wf'), {'kind': 'enc-keyword-prefix', 'nontrivial': True}))
     # inline images written by Content::encode: every colour space the parser accepts x BPC 1/2/4 x widths whose rows do
     # not end on a byte boundary x several rows (ragged), and byte-aligned / single-row / 8- and 16-bit ones
     for k in range(n // 5):
@@ -653,19 +660,24 @@ SPEC = {
     'gen_cases': gen_cases,
     'compare': compare,
     'classify': classify,
-    'partial_note': 'second sentence of the property (decode, encode, decode again): proved that every decoded inline image has the '
-                    'image-specific part of the domain (C14_inline_image_decoded) and re-encodes to bytes that decode to the same '
-                    'operation under three assumed facts about the parsed dictionary values (C14_inline_image_reencode_partial: '
-                    'well-formed, normal form, nesting within the limit); the literal clause is evaluated on the implementation '
-                    'for every dec case',
+    'partial_note': 'second sentence of the property (decode, encode, decode again) is proved for ALL byte strings '
+                    '(C14_decode_encode_decode) with the re-printing of reals (f32 Display o from_str) as a function canon specified by '
+                    'the written-out float assumptions canon_spec (shape, idempotence; consistent: C14_canon_spec_consistent; validated '
+                    'on the crate by the (real ...) cases) -- the assumptions themselves are about Rust std and are not proved; outside: '
+                    'open finding C14-real-overflow, and decoded operators that are exactly null/true/false or a lone BI (malformed '
+                    'tokens such as null1). The literal clause is evaluated on the implementation for every dec/decv case',
     'rule': 'byte-pair sweep rows (every second byte after a fixed first byte as name and as literal-string operand; all 65 536 pairs in '
-            'the thorough tier); random operation sequences (operators over the parser alphabet, 0-6 operands of every direct kind nested to depth 3, '
-            'adversarial bytes in names/strings, f32 reals printed by Rust itself) encoded then decoded; operation sequences holding '
-            'inline images as BI + one stream operand (all 8 colour-space names the parser accepts, abbreviated and long keys, '
-            'BPC 1/2/4 with widths whose rows do not end on a byte boundary and 2-7 rows, also aligned / single-row / 8- and 16-bit, '
-            'samples containing EI and white space) encoded then decoded; raw content streams '
-            '(token soup with comments, all EOL flavours, valid and invalid inline images, byte damage) decoded, re-encoded, '
-            'decoded again; non-trivial = at least one operation; distinct = distinct case text',
+            'the thorough tier); random operation sequences (operators over the parser alphabet incl. those beginning with null/true/false/BI, '
+            '0-6 operands of every direct kind nested to depth 3, adversarial bytes in names/strings, f32 reals printed by Rust itself) '
+            'encoded then decoded; operation sequences holding inline images as BI + one stream operand (all 8 colour-space names the '
+            'parser accepts, abbreviated and long keys, BPC 1/2/4 with widths whose rows do not end on a byte boundary and 2-7 rows, also '
+            'aligned / single-row / 8- and 16-bit, samples containing EI and beginning with white space) encoded then decoded; raw content '
+            'streams (token soup with comments, all EOL flavours, valid and invalid inline images, byte damage) decoded, re-encoded, decoded '
+            'again; VALID content from an independent producer written from ISO 32000-1 (every spelling of integers, reals, names, literal '
+            'and hex strings, nested arrays / dictionaries with all six white-space bytes and comments, references inside containers, '
+            'inline images in every supported colour space and key style with all five ID separators, EI and leading white space in the '
+            'samples) decoded (operation count checked), re-encoded, decoded again; spellings of reals around the f32 limits for the '
+            'float assumptions; non-trivial = at least one operation; distinct = distinct case text',
     'extra_trusted': ['C14: reals are compared as f32 bit patterns (exact decimal->f32 rounding in lib/vlib.py); '
                       'f32 Display/FromStr are Rust std (assumed: from_str(to_string x) = x)'],
 }
@@ -676,21 +688,27 @@ def run(ctx):
 
 
 MANIFEST = {
-    'level_text': 'Machine-checked proof (Coq) that the model of Content::decode applied to the model of Content::encode returns '
+    'level_text': 'Machine-checked proof (Coq) that (1) the model of Content::decode applied to the model of Content::encode returns '
                   'the same operators with operands in normal form (integral real -> integer) for EVERY sequence of operations in '
-                  'the domain (operators over the parser alphabet; operands = direct objects of every kind nested up to MAX_BRACKET '
-                  'levels with arbitrary bytes in names, strings and keys; inline images in BI/ID/EI syntax) outside two open known '
-                  'classes (C14_rt); built on token round trips for every byte string (names, literal strings with any parenthesis '
+                  'the domain (operators over the parser alphabet other than the keywords null/true/false; operands = direct objects of '
+                  'every kind nested up to MAX_BRACKET levels with arbitrary bytes in names, strings and keys; inline images in BI/ID/EI '
+                  'syntax with arbitrary sample bytes) outside one open known class (C14_rt), and (2) for EVERY byte string, what decode '
+                  'returns, held as f32 and encoded again, decodes to the same operations up to "an integral real is an integer" '
+                  '(C14_decode_encode_decode; built on soundness of the parser model for all inputs, C14_decoded_sound / '
+                  'C14_parsed_value_sound); built on token round trips for every byte string (names, literal strings with any parenthesis '
                   'nesting, hex strings, i64, f32 Display texts), the object round trip with the explicit follow-set / separator lemma '
                   '(C14_object_rt, C14_separator_rule), witnesses for the known classes and for each domain restriction. Byte sets, '
-                  'escape letters, separator variants, alternative orders, depth limits and the encode shape are re-read from '
-                  'src/{writer,parser/mod,content,reader}.rs on every run; the model is tied to the crate by differential runs.',
-    'level_note': 'Open known findings: C14-keyword-operator (operator text beginning with null/true/false, or BI without operands) and '
-                  'C14-deep-nesting (operand containers nested deeper than MAX_BRACKET=100). Partial: the decode-encode-decode clause '
-                  'for inline images is proved up to three assumed facts about the parsed dictionary values '
-                  '(C14_inline_image_decoded, C14_inline_image_reencode_partial). Trusted: Coq kernel; translator part Lex; hand-written models Writer.v/Parser.v tied by '
+                  'escape letters, separator variants, alternative orders, depth limits, keyword / ID-separator / number shapes and the '
+                  'encode shape are re-read from src/{writer,parser/mod,content,reader}.rs on every run; the model is tied to the crate '
+                  'by differential runs.',
+    'level_note': 'Open known findings: C14-deep-nesting (operand containers nested deeper than MAX_BRACKET=100) and C14-real-overflow (a real '
+                  'whose spelling overflows f32 is decoded to infinity and written as the operator inf). Fixed in this round: '
+                  'C14-keyword-operator (93a8a25), C14-image-leading-space (aee7de5). Clause (2) is proved under the written-out float '
+                  'assumptions canon_spec about f32 Display/FromStr (consistent by C14_canon_spec_consistent; validated on the crate by a '
+                  'sweep of spellings); a decoded operator that is exactly null/true/false or a lone BI (only from malformed tokens such '
+                  'as null1) is outside it. Trusted: Coq kernel; translator part Lex; hand-written models Writer.v/Parser.v tied by '
                   'correspondence (encoded bytes and decoded operations, valid and malformed streams); f32 Display/FromStr (Rust std: printed '
-                  'shape, from_str(to_string x) = x); extraction/OCaml driver; Rust harness. No axioms (Print Assumptions: closed).',
+                  'shape, from_str(to_string x) = x, overflow bound 2^128 - 2^103); extraction/OCaml driver; Rust harness. No axioms (Print Assumptions: closed).',
     'technique': 'Coq proof: 256-case sweeps on regenerated byte sets + structural / nested induction with explicit continuations '
                  '+ differential correspondence',
     'design_ref': 'DESIGN.md 6 C14 (and C01 object_rt), notes/C14.md',
